@@ -210,6 +210,32 @@ pub mod ufs {
     }
 }
 
+/// `alloc::fmt::format` as a numbered tag ("#1", "#2", ...): where an obligation is about what a
+/// function does AROUND its formatted pieces (raw bytes appended verbatim, number and order of
+/// pieces) and the formatted text itself is outside (core::fmt::write does not finish symbolic
+/// execution even with the decimal stub in place: 1500 s cap).
+pub mod fmt_tag {
+    pub static mut CALLS: crate::verif_env::Ghost<usize> = crate::verif_env::ghost(107, 0);
+    pub fn format(_: std::fmt::Arguments<'_>) -> String {
+        unsafe {
+            CALLS.v += 1;
+            if CALLS.v == 1 {
+                String::from("#1")
+            } else if CALLS.v == 2 {
+                String::from("#2")
+            } else {
+                String::from("#n")
+            }
+        }
+    }
+    pub fn calls() -> usize {
+        unsafe { CALLS.v }
+    }
+    pub fn reset() {
+        unsafe { CALLS.v = 0 }
+    }
+}
+
 /// `alloc::fmt::format` stand-in where formatting is not the subject.
 pub fn fmt_stub(_: std::fmt::Arguments<'_>) -> String {
     String::new()
